@@ -21,7 +21,7 @@ IdentifiersValid ==
   (Rec /\ C.kind = "name") => \A k \in 1..4 : ValidIdent(C.ids[k]) /\ StyleOK(C.ids[k], Styles[k])
 (* two distinct symbols that would receive the same identifier => the compiler reports an error *)
 CollisionsReported ==
-  (Rec /\ C.kind = "pair" /\ C.distinctNames /\ C.wouldBe[1] = C.wouldBe[2]) => C.err
+  (Rec /\ C.kind = "pair" /\ C.distinctNames /\ Len(C.wouldBe[1]) > 0 /\ C.wouldBe[1] = C.wouldBe[2]) => C.err
 (* and whatever it accepts has pairwise distinct, valid identifiers *)
 AcceptedIdsDistinct ==
   (Rec /\ C.kind = "pair" /\ ~C.err) =>
